@@ -108,6 +108,7 @@ type mvalue struct {
 
 // morassObs is what the client observed, for the post-run oracles.
 type morassObs struct {
+	lastErr    error // latest non-EOF error
 	sawError   error // first non-EOF error returned by New/Push/Finalise/Pull/Clear
 	errorOp    string
 	errorStep  int
@@ -123,6 +124,7 @@ type morassObs struct {
 type cycleObs struct {
 	start, end int // simulator steps
 	err        bool
+	errText    string
 	delivered  bool
 	drained    bool
 }
@@ -164,6 +166,7 @@ func morassClient(sim *simrt.Sim, pl *MorassPlan, obs *morassObs, variant int) {
 		if err == nil {
 			return false
 		}
+		obs.lastErr = err
 		if pl.Tolerant {
 			if obs.sawError == nil {
 				obs.sawError = err
@@ -490,6 +493,7 @@ func morassClient(sim *simrt.Sim, pl *MorassPlan, obs *morassObs, variant int) {
 		obs.cycles[ci].end = sim.Steps()
 		if errored {
 			obs.cycles[ci].err = true
+			obs.cycles[ci].errText = fmt.Sprint(obs.lastErr)
 			// Recovery: Clear resets the sorter (and its error) for another
 			// cycle. Only in sequential mode, where no writer can still be
 			// running when a call has returned an error.
@@ -650,6 +654,14 @@ func faultOracle(sim *simrt.Sim, pl *MorassPlan, obs *morassObs) {
 				what = fmt.Sprintf("after an injected %s failure at %s", fired.Kind, fired.Site)
 			}
 			sim.Fail("oracle", "morass-silent-loss", fmt.Sprintf("cycle %d: every call reported success but the values delivered differ from the values pushed (%s)", ci, what))
+			return
+		}
+		if fired == nil && co.err && ci > 0 && !pl.Concurrent {
+			// sequential mode: the previous cycle's error was answered with a
+			// successful Clear, nothing failed in this cycle, and yet a call
+			// reported an error: "whatever earlier cycles did" (C11) includes
+			// cycles that met an I/O failure
+			sim.Fail("oracle", "morass-stale-error", fmt.Sprintf("cycle %d: a call returned an error (%s) although no I/O operation of this cycle failed and the previous cycle's failure had been cleared with Clear", ci, co.errText))
 			return
 		}
 		if fired != nil && !co.err {
